@@ -45,6 +45,8 @@ type humanHistory struct {
 		Value     string `json:"value_written"`
 		Kind      string `json:"kind"`
 		Faithful  bool   `json:"faithful"`
+		Same      bool   `json:"same_request_as_previous"`
+		Dispatch  bool   `json:"group_runs_inside_a_container_dispatch"`
 	} `json:"reads"`
 }
 
@@ -74,7 +76,7 @@ func (hu humanHistory) history(path string) (History, error) {
 			return h, fmt.Errorf("read %d: value_written does not parse: %v", i, err)
 		}
 		h.Reads = append(h.Reads, Read{Kind: r.Kind, Val: Value{Type: r.ValueType, V: Deref(t), NewTarget: nt, Deep: deep}, CT: r.CT, CE: r.CE,
-			Body: body, Written: written, Faithful: r.Faithful, Status: "replayed"})
+			Body: body, Written: written, Faithful: r.Faithful, Status: "replayed", Same: r.Same, Dispatch: r.Dispatch})
 	}
 	return h, nil
 }
@@ -109,8 +111,8 @@ func ReplayFile(path string) error {
 	}
 	fmt.Println("what:", f.Violation.What)
 	for i, r := range c.Reads {
-		fmt.Printf("read %d: Content-Type=%q Content-Encoding=%q body=%d bytes\n  real : %s %s ledger=%q (alone on a fresh provider: %s)\n  model: %s path=%s\n  Spec.C16.readHolds=%v clauses[no-panic,round-trip,broken-coding,broken-syntax,history,ledger]=%s class of the repaired F61=%v class F62=%v\n",
-			i, r.Read.CT, r.Read.CE, len(r.Read.Body), r.Real.Key(), r.Real.Detail, r.Real.Events, r.Alone.Key(), r.ModelRaw, r.Tag, r.S, r.Clauses, r.F61, r.F62)
+		fmt.Printf("read %d (%s%s): Content-Type=%q Content-Encoding=%q body=%d bytes\n  real : %s %s ledger=%q (alone on a fresh provider: %s)\n  model: %s path=%s\n  Spec.C16.readHolds=%v clauses[no-panic,round-trip,broken-coding,broken-syntax,history,ledger]=%s class of the repaired F61=%v class F62=%v\n",
+			i, StageOf(c.H.Reads, i), map[bool]string{true: ", on the request of the read before", false: ""}[r.Read.Same && i > 0], r.Read.CT, r.Read.CE, len(r.Read.Body), r.Real.Key(), r.Real.Detail, r.Real.Events, r.Alone.Key(), r.ModelRaw, r.Tag, r.S, r.Clauses, r.F61, r.F62)
 	}
 	fmt.Printf("Spec.c16Holds=%v issues=%v\n", c.Spec, issues)
 	return nil
